@@ -121,10 +121,58 @@ def features(h):
     return (h["priv"], tuple(sorted(tags(h))))
 
 
+def build_targets(ctx, d):
+    """The statement holds for a program whichever Linux target it was built for: the smallest user of the loader (harness/cmd/loadmini)
+    is built for every target this host executes (amd64 and 386 on an x86_64 kernel) and runs a valid policy with and without thread-sync
+    and an invalid one, as root and as nobody: nil only with the calling thread (thread-sync: every thread) in filter mode and the denied
+    call answered EPERM; an invalid policy gives an error and changes nothing."""
+    import subprocess
+    src = os.path.join(os.path.dirname(ctx.harness()))
+    ran = {}
+    for goarch in ("amd64", "386"):
+        out = os.path.join(d, "loadmini_" + goarch)
+        rc, o, e = ctx.run(["go", "build", "-tags", "verif", "-o", out, "./cmd/loadmini"], cwd=src, env={"GOARCH": goarch, "CGO_ENABLED": "0"}, timeout=900)
+        if rc != 0:
+            ctx.note("loadmini does not build for linux/%s: %s" % (goarch, e[-300:]))
+            continue
+        os.chmod(out, 0o755)
+        for kind, tsync in (("valid", False), ("valid", True), ("invalid", False), ("invalid", True)):
+            for uid in (0, 65534):
+                kw = dict(user=uid, group=uid, extra_groups=[]) if uid else {}
+                try:
+                    p = subprocess.run([out, kind] + (["tsync"] if tsync else []), capture_output=True, text=True, timeout=30, cwd="/", env={"PATH": "/usr/bin:/bin"}, **kw)
+                    r = json.loads(p.stdout.strip().splitlines()[-1])
+                except Exception as ex:  # noqa
+                    if goarch == "amd64":
+                        raise vlib.Machinery("loadmini (amd64) failed: %s" % ex)
+                    ctx.note("a linux/386 program does not run on this host: %s" % ex)
+                    break
+                ran[goarch] = ran.get(goarch, 0) + 1
+                ctx.cov["evaluations"] += 1
+                rep = {"build_target": "linux/" + goarch, "uid": uid, "observed": r, "how": "./check C09 quick"}
+                others = r["other_modes"].split()
+                if kind == "valid" and r["result"] == "nil":
+                    if r["seccomp_mode"] != "2" or r["probe"] != "1":
+                        ctx.violation("a program built for linux/%s: LoadFilter returned nil but the calling thread is in seccomp mode %s and the denied call returns errno %s"
+                                      % (goarch, r["seccomp_mode"], r["probe"]), rep)
+                    elif tsync and any(m != "2" for m in others):
+                        ctx.violation("a program built for linux/%s: a thread-sync load returned nil but other threads are in seccomp mode %s" % (goarch, others), rep)
+                if kind == "invalid":
+                    if not r["result"].startswith("err"):
+                        ctx.violation("a program built for linux/%s: an invalid policy did not produce an error (result %s)" % (goarch, r["result"]), rep)
+                    if r["seccomp_mode"] != "0" or r["probe"] != r["probe_before"]:
+                        ctx.violation("a program built for linux/%s: a load that failed before reaching the kernel changed the calling thread (mode %s)" % (goarch, r["seccomp_mode"]), rep)
+    ctx.cov["loads_by_build_target"] = ran
+
+
 def check(ctx, replay=None):
     if replay:
         rep = json.load(open(replay))
         d = lf.child_bin(ctx)
+        if "build_target" in rep:
+            # a finding of the build-target runs: run them again on the current tree
+            build_targets(ctx, d)
+            return ctx.finish()
         if rep["script"].get("jail"):
             rep["script"]["jail"] = os.path.dirname(ctx.path("jail", "x"))
         obs, err = lf.run_child(d + "/loadchild", rep["script"], rep["priv"])
@@ -229,6 +277,7 @@ def check(ctx, replay=None):
             ctx.sample({"priv": h["priv"], "steps": [(e["op"], e.get("caller", e.get("t")), e.get("pol"), e.get("flags"), e.get("nnp"), e.get("res")) for e in h["hist"]]}, limit=4)
     if failed_children > len(picked) // 4:
         raise vlib.Machinery("%d of %d children failed" % (failed_children, len(picked)))
+    build_targets(ctx, d)
     ctx.cov["histories_generated"] = len(hists)
     ctx.cov["histories_replayed_without_a_file_system"] = njail
     ctx.cov["replayed_by_tag"] = seen_tags
